@@ -40,6 +40,15 @@ theorem articulation_grace_partial (art bp : ℝ) : decodeArt 0 art bp = 0 := by
 example : decodeArt 0 (Real.logb 2 ((3/4 : ℝ) / (3/4 * 1))) (3/4) ≠ 1/8 := by
   rw [articulation_grace_partial]; norm_num
 
+/-- the one fact about logarithms the exact round trip needs: `C18.performance_roundtrip`
+    (Props/C18Pipeline, over ℚ) passes the articulation ratio and the two logarithmic tempo columns
+    through abstract `L`, `E` with `E (L r) = r` for positive `r`; for the functions the code uses
+    (`np.log2`, `2 ** ·`) this is that hypothesis, over the reals -/
+theorem exp2_log2 (r : ℝ) (hr : 0 < r) : (2 : ℝ) ^ Real.logb 2 r = r :=
+  Real.rpow_logb (by norm_num) (by norm_num) hr
+
+example : (2 : ℝ) ^ Real.logb 2 (6 / 5) = 6 / 5 := exp2_log2 _ (by norm_num)
+
 -- ------------------------------------------------------------------ tempo normalisations
 
 -- (`beat_period`: scale and rescale are the identity on the column — `C18.normalisation_inverse` with `.bp`)
